@@ -19,6 +19,10 @@ def main():
     print("native replay binary: %s (%.0fs)" % (b, time.time() - t0))
     p, dt = mir_engine.dump_mir("radix-common")
     print("MIR dump: %s (%.0fs)" % (p, dt))
+    b = mir_engine.build_replay("radix-engine")
+    print("native replay binary (radix-engine): %s (%.0fs)" % (b, time.time() - t0))
+    p, dt = mir_engine.dump_mir("radix-engine")
+    print("MIR dump: %s (%.0fs)" % (p, dt))
     print("setup done in %.0fs" % (time.time() - t0))
     return 0
 
